@@ -8,8 +8,9 @@ sys.path.insert(0, os.environ.get("OPERON_REPO", "/repo"))
 def search(D=3):
     from operon_ai.state.genome import Genome, Gene, GeneType, ExpressionLevel
     n = 0
-    approvals = [None, lambda m: False, lambda m: m.gene_name == "a", lambda m: True]
-    ops = [("add", "a", 9), ("add", "z", 1), ("mutate", "a", 5), ("mutate", "c", 6), ("mutate", "nope", 1), ("rollback", "a"), ("rollback", "c"),
+    approvals = [None, lambda m: False, lambda m: m.gene_name == "a", lambda m: True,
+                 lambda m: getattr(m, "new_value", 0) != 6 and getattr(m, "new_value", 0) != 66]     # value-dependent approver: refuses the value 6
+    ops = [("add", "a", 9), ("add", "z", 1), ("mutate", "a", 5), ("mutate", "a", 66), ("mutate", "c", 6), ("mutate", "nope", 1), ("rollback", "a"), ("rollback", "c"),
            ("silence", "a"), ("activate", "a"), ("setexpr", "c"), ("replicate", {"a": 7, "c": 8}), ("replicate", None), ("express", {"c": 1}), ("express", None)]
     for allow in (False, True):
         for ai, approve in enumerate(approvals):
@@ -20,7 +21,7 @@ def search(D=3):
                                allow_mutations=allow, on_mutation=approve, silent=True)
                 model = {"a": 1, "b": 2, "c": 3}
                 approved_log = []      # (gene, original) of approved mutations, for rollback
-                authorised = lambda name: allow or (approve is not None and bool(approve(type("M", (), {"gene_name": name})())))
+                authorised = lambda name, val=None: allow or (approve is not None and bool(approve(type("M", (), {"gene_name": name, "new_value": val})())))
                 for oi in seq:
                     op = ops[oi]
                     before_hash = g.get_hash()
@@ -36,7 +37,7 @@ def search(D=3):
                         elif op[0] == "mutate":
                             r = g.mutate(op[1], op[2])
                             if op[1] in model:
-                                if authorised(op[1]):
+                                if authorised(op[1], op[2]):
                                     approved_log.append((op[1], model[op[1]]))
                                     model[op[1]] = op[2]
                                     if not r:
@@ -49,10 +50,10 @@ def search(D=3):
                         elif op[0] == "rollback":
                             last = [x for x in approved_log if x[0] == op[1]]
                             r = g.rollback_mutation(op[1])
-                            if last and authorised(op[1]):
+                            if last and authorised(op[1], last[-1][1]):
                                 approved_log.append((op[1], model[op[1]]))
                                 model[op[1]] = last[-1][1]
-                            elif r and not (last and authorised(op[1])):
+                            elif r and not (last and authorised(op[1], last[-1][1])):
                                 return n, f"rollback of {op[1]!r} succeeded without an authorised path"
                         elif op[0] == "silence":
                             g.silence_gene(op[1])
@@ -67,7 +68,7 @@ def search(D=3):
                             if {k: v.value for k, v in g._genes.items()} != pm or g.get_hash() != ph:
                                 return n, f"replication altered the parent (ops={[ops[i][:2] for i in seq]})"
                             for k, v in child._genes.items():
-                                exp = op[1][k] if (op[1] and k in op[1] and authorised(k)) else pm[k]
+                                exp = op[1][k] if (op[1] and k in op[1] and authorised(k, op[1][k])) else pm[k]
                                 if v.value != exp:
                                     return n, f"child gene {k!r} = {v.value!r}, expected {exp!r} (allow={allow}, approval#{ai}, mutations={op[1]})"
                         elif op[0] == "express":
@@ -95,7 +96,7 @@ def search(D=3):
 if __name__ == "__main__":
     D = int(sys.argv[1]) if len(sys.argv) > 1 else 3
     n, bad = search(D)
-    out = {"status": "ok" if bad is None else "violation", "bound": f"operation sequences of depth {D} over 14 operations x allow_mutations x 4 approval callbacks", "cases": n}
+    out = {"status": "ok" if bad is None else "violation", "bound": f"operation sequences of depth {D} over 15 operations x allow_mutations x 5 approval callbacks (by gene and by value)", "cases": n}
     if bad:
         out["detail"] = bad
         os.makedirs("replays", exist_ok=True)
